@@ -32,7 +32,8 @@ def run(res, prop, tier, seed, work, replay=None):
         raise Infra("pool recorder failed:\n" + "\n".join(l for l in (p.stdout or "").splitlines() if "INFO" not in l and "DEBUG" not in l and "WARN" not in l)[-2000:])
     st, mism = vlib.validate_records(SPEC, "PoolRecords", "PoolRecords.cfg", work, pool, chunk=1500, data_name="pool.ndjson", with_reason=True)
     for i, (r, parts) in enumerate(mism):
-        owner, _, what = parts[1].partition(":")
+      for clause in parts[1].split("+"):          # one clause per owning property
+        owner, _, what = clause.partition(":")
         sig = "pool:%s:%s" % (r["ev"], what)
         rp = vlib.save_replay(work, "%s_h%d_s%d.json" % (owner, r["hist"], r["step"]),
                               {"engine": "pool", "signature": sig, "seed": seed, "tier": tier, "record": r}) if owner == prop and i < 40 else ""
